@@ -45,11 +45,55 @@ def generated_dex(seed, n):
     return c21.build_dex(cases)
 
 
+def crafted_flags_dex():
+    """classes, fields, constructors and methods carrying SEVERAL access flags each (the printed modifier list has an order): every pair / triple of
+    the flags that are legal for the kind"""
+    import itertools
+    from vf.model import dexw as W
+    m = W.DexModel()
+    vis = [W.ACC_PUBLIC, W.ACC_PRIVATE, W.ACC_PROTECTED, 0]
+    k = 0
+    for cf in (W.ACC_PUBLIC, W.ACC_PUBLIC | W.ACC_FINAL, W.ACC_PUBLIC | W.ACC_ABSTRACT, W.ACC_FINAL | W.ACC_SYNTHETIC, W.ACC_PUBLIC | W.ACC_FINAL | W.ACC_SYNTHETIC | W.ACC_ENUM):
+        c = m.add_class("Lfl/C%d;" % k, cf)
+        k += 1
+        extra_m = [W.ACC_FINAL, W.ACC_SYNCHRONIZED, W.ACC_VARARGS, W.ACC_SYNTHETIC, W.ACC_STRICT, W.ACC_BRIDGE, W.ACC_DECLARED_SYNCHRONIZED]
+        j = 0
+        for v in vis:
+            for r in (1, 2, 3):
+                for combo in itertools.combinations(extra_m, r):
+                    fl = v
+                    for x in combo:
+                        fl |= x
+                    # constructors: distinct parameter lists; methods: static and virtual
+                    params = tuple(["I"] * (j % 4) + ["J"] * (j // 4 % 3) + ["Ljava/lang/String;"] * (j // 12 % 3) + ["[I"] * (j // 36))
+                    if (fl & (W.ACC_FINAL | W.ACC_SYNCHRONIZED | W.ACC_BRIDGE | W.ACC_STRICT)) == 0:
+                        nreg = 1 + sum(2 if p == "J" else 1 for p in params)
+                        c.add_method("<init>", "V", params, fl | W.ACC_CONSTRUCTOR,
+                                     W.Code(nreg + 1, nreg, 1, [("invoke-direct", [1], W.Mth("Ljava/lang/Object;", "<init>", "V", ())), ("return-void",)]))
+                    c.add_method("m%d" % j, "I", ("I",), fl | (W.ACC_STATIC if j % 2 else 0), W.Code(3, 2 - (j % 2), 0, [("const/4", 0, 1), ("return", 0)]))
+                    j += 1
+        extra_f = [W.ACC_STATIC, W.ACC_FINAL, W.ACC_VOLATILE, W.ACC_TRANSIENT, W.ACC_SYNTHETIC, W.ACC_ENUM]
+        j = 0
+        for v in vis:
+            for r in (1, 2, 3):
+                for combo in itertools.combinations(extra_f, r):
+                    fl = v
+                    for x in combo:
+                        fl |= x
+                    if fl & W.ACC_FINAL and fl & W.ACC_VOLATILE:
+                        continue
+                    c.add_field("f%d" % j, "I", fl)
+                    j += 1
+    return W.write_dex(m)
+
+
 def load_inputs(spec):
     """spec: list of input names -> [(name, dex bytes)]"""
     out = []
     for name in spec:
-        if name.startswith("gen:"):
+        if name == "crafted:flags":
+            out.append((name, crafted_flags_dex()))
+        elif name.startswith("gen:"):
             _, seed, n = name.split(":")
             out.append((name, generated_dex(seed, int(n))))
         elif name.endswith(".apk"):
@@ -156,9 +200,20 @@ def child(ctx, arg):
             ms = list(c.get_methods())
             if arg.get("shuffle") is not None:
                 random.Random("order-%s-%s" % (arg["shuffle"], cn)).shuffle(ms)
-            for em in ms:
+            for mi_, em in enumerate(ms):
                 if junk:
                     junk.churn()
+                if arg.get("ast") is not None and (mi_ + arg["ast"]) % 3 == 0 and len(ms) > 1:
+                    # another API of the same decompiler is used in between: the AST of ANOTHER method of the class is requested first
+                    other = ms[(mi_ * 7 + 1) % len(ms)]
+                    try:
+                        from androguard.decompiler.decompile import DvMethod
+                        z_ = DvMethod(dx.get_method(other))
+                        z_.process(doAST=True)
+                        z_.get_ast()
+                        ctx.count("ast_requests_between_source_requests")
+                    except Exception:
+                        pass
                 key = "%s|%s->%s%s" % (name, em.get_class_name(), em.get_name(), em.get_descriptor().replace(" ", ""))
                 before = sum(HP.STATE["sites"].values())
                 hashes[key] = digest(decompile_method_twice(em, dx) if arg.get("twice") else decompile_method(em))
@@ -246,6 +301,7 @@ def child_configs(quick):
         {"label": "E hashseed=2 perturb=1", "hashseed": "2", "perturb": 1},
         {"label": "F hashseed=0 perturb=2 shuffled", "hashseed": "0", "perturb": 2, "shuffle": 2},
         {"label": "T hashseed=0 every object processed twice", "hashseed": "0", "twice": True},
+        {"label": "S hashseed=1 AST of another method requested in between", "hashseed": "1", "ast": 1},
     ]
     if not quick:
         cfg += [
@@ -267,6 +323,10 @@ def classify_trigger(labels_by_hash, cfgs):
     if len([g for g in once if g]) == 1:
         # all children that decompile each object once agree; only the child that runs process() twice on the same object differs
         return "second-process-of-the-same-object-differs"
+    noast = [[l for l in g if by_label[l].get("ast") is None and not by_label[l].get("twice")] for g in groups]
+    if len([g for g in noast if g]) == 1:
+        # only the child that requests ASTs of other methods in between differs
+        return "source-depends-on-an-earlier-AST-request-for-another-method"
     plain = [[l for l in g if by_label[l].get("perturb") is None] for g in groups]
     plain = [g for g in plain if g]
     if len(plain) >= 2:
@@ -291,11 +351,11 @@ def run(ctx):
         return
     quick = ctx.quick
     if quick:
-        inputs = ["classes.dex", "Annotation_classes.dex"] + SMALL_DEX + ["gen:0:60"]
+        inputs = ["classes.dex", "Annotation_classes.dex"] + SMALL_DEX + ["gen:0:60", "crafted:flags"]
         groups = [inputs]
     else:
-        inputs = ["classes.dex", "Annotation_classes.dex"] + SMALL_DEX + THOROUGH_APKS + ["gen:0:400", "gen:1:400"]
-        groups = [["classes.dex"], ["Annotation_classes.dex"], SMALL_DEX + THOROUGH_APKS[:3], THOROUGH_APKS[3:] + ["gen:0:400", "gen:1:400"]]
+        inputs = ["classes.dex", "Annotation_classes.dex"] + SMALL_DEX + THOROUGH_APKS + ["gen:0:400", "gen:1:400", "crafted:flags"]
+        groups = [["classes.dex"], ["Annotation_classes.dex"], SMALL_DEX + THOROUGH_APKS[:3], THOROUGH_APKS[3:] + ["gen:0:400", "gen:1:400", "crafted:flags"]]
     cfgs = child_configs(quick)
     args = []
     for gi, g in enumerate(groups):
